@@ -334,9 +334,12 @@ def c_to_s_config():
         ps, cl, cc = loc_arr('poppo_s_locs', n_out), loc_arr('c_locs', nlocs), loc_arr('c_caps', nlocs)
         j = z3.Int('j')
         st.assume(SBool(z3.ForAll([j], z3.Implies(z3.And(0 <= j, j < n_out.e), z3.And(st.heap['poppo_s_locs'][j] >= 0, st.heap['poppo_s_locs'][j] < s_len.e)))))
+        # the derived index table of SimOps: poppo_c_locs[j] = c_locs[ppo_offset + poppo_s_locs[j]] (available to the function, e.g. after a refactoring)
+        pcl = loc_arr('poppo_c_locs', n_out)
+        st.assume(SBool(z3.ForAll([j], z3.Implies(z3.And(0 <= j, j < n_out.e), st.heap['poppo_c_locs'][j] == st.heap['c_locs'][ppo.e + st.heap['poppo_s_locs'][j]]))))
         st.heap['s'] = z3.Const('s0', S3)
-        selfo = SObj.new(st, 'self', poppo_s_locs=ps, c_locs=cl, c_caps=cc, ppo_offset=ppo, sims=sims, s=SArr3(), c=Opaque('c'))
-        ex.readonly.update({('self', f) for f in ('poppo_s_locs', 'c_locs', 'c_caps', 'ppo_offset', 'sims', 's', 'c')})
+        selfo = SObj.new(st, 'self', poppo_s_locs=ps, poppo_c_locs=pcl, c_locs=cl, c_caps=cc, ppo_offset=ppo, sims=sims, s=SArr3(), c=Opaque('c'))
+        ex.readonly.update({('self', f) for f in ('poppo_s_locs', 'poppo_c_locs', 'c_locs', 'c_caps', 'ppo_offset', 'sims', 's', 'c')})
         st.env.update(self=selfo, time=Opaque('time'), sd=Opaque('sd'), seed=Opaque('seed'))
         ex.g = dict(s_len=s_len.e, sims=sims.e, n=n_out.e, ppo=ppo.e, PS=st.heap['poppo_s_locs'], CL=st.heap['c_locs'], CC=st.heap['c_caps'], s0=st.heap['s'])
         return st
